@@ -59,6 +59,20 @@ fn main() {
             let code = orch::orchestrate(orch::OrchArgs { scenario, tier, seed, runs: env_u64("VERIF_RUNS"), workers, write_evidence: std::env::var("VERIF_NO_EVIDENCE").is_err() });
             std::process::exit(code);
         }
+        "selftest" => {
+            let what = args.get(2).cloned().unwrap_or_default();
+            match what.as_str() {
+                "determinism" => {
+                    let seeds = env_u64("VERIF_SELFTEST_SEEDS").unwrap_or(8);
+                    let runs = env_u64("VERIF_SELFTEST_RUNS").unwrap_or(64);
+                    std::process::exit(orch::selftest_determinism(seeds, runs));
+                }
+                _ => {
+                    eprintln!("usage: bsvsim selftest determinism");
+                    std::process::exit(2);
+                }
+            }
+        }
         "replay" => {
             let p = PathBuf::from(args.get(2).cloned().unwrap_or_default());
             std::process::exit(orch::replay_main(&p, true));
